@@ -225,6 +225,8 @@ def shrink(case: dict, want_spec: bool) -> dict:
             progressed = False
             cands = []
             a = cur["a"]
+            fmask = ((1 << cur["w"]) - 1) << (cur["i"] * cur["w"])
+            cands += [dict(cur, a=0), dict(cur, a=a & fmask), dict(cur, a=a & (fmask | fmask << cur["w"] | fmask >> cur["w"]))]
             cands += [dict(cur, a=a & ~(1 << b)) for b in range(a.bit_length()) if a >> b & 1][:80]
             if cur["i"]:
                 cands += [dict(cur, i=0), dict(cur, i=cur["i"] // 2), dict(cur, i=cur["i"] - 1)]
@@ -347,7 +349,7 @@ def run(chk: Check) -> int:
         "incr1": chk.budget(30000, 300000),
         "incr1_small": chk.budget(30000, 0),      # thorough enumerates this space completely instead
         "hist": chk.budget(3000, 30000),
-        "idx": chk.budget(6000, 40000),
+        "idx": chk.budget(4000, 40000),
         "bloom": chk.budget(300, 1500),
         "dual": chk.budget(150, 600),
     }
@@ -407,7 +409,7 @@ def run(chk: Check) -> int:
                 reprobe_hist[b] = reprobe_hist.get(b, 0) + 1
             if kind == "bloom":
                 bloom_added_queries += sum(1 for st in r.trace[1:] if st["kind"] == "query" and st["impl"] == "T")
-            if kind not in samples and r.stats and len(json.dumps(case)) < 400 and not origin.startswith("corpus"):
+            if kind not in samples and r.stats and len(json.dumps(case)) < 260 and not origin.startswith("corpus"):
                 samples[kind] = {"case": case, "impl": [t.get("impl") for t in r.trace if isinstance(t, dict) and "impl" in t][:8]}
             if r.bad:
                 bad.append((origin, case, r))
